@@ -128,6 +128,11 @@ class StubSink(ClientMessageSink):
     if self.closed_at is None:
       self.closed_at = CLOCK.now
     self._state = ChannelState.Closed
+    if self.spec.get('close_fails_inflight'):
+      # like the shipped transports and pools: closing fails whatever is still
+      # outstanding, in-line, before Close() returns
+      for r in list(self.outstanding()):
+        self.complete(r, error=StubError('connection closed'))
 
   def die(self, signal=True, fail_inflight=True):
     """The connection fails underneath: state Closed, optional fault signal,
